@@ -11,6 +11,7 @@ import (
 
 	"golang.org/x/tools/go/ssa"
 
+	"oryxverif/checker/internal/abs"
 	"oryxverif/checker/internal/core"
 )
 
@@ -200,7 +201,8 @@ func runC16(c *Ctx) {
 	R.Require("C16.gate", 5)
 	R.Require("C16.gate-flag", 1)
 	R.Require("C16.aad", 3)
-	R.Require("C16.width", 1)
+	R.Require("C16.width", 5)
+	R.Require("C16.mac-input", 1)
 	for _, f := range P.ModuleFuncs(pkg, pkg+"/cipher") {
 		R.Funcs[core.QualName(f)] = true
 	}
@@ -459,6 +461,46 @@ func runC16(c *Ctx) {
 			"the content decryption error is tested", "Decrypt ignores the error of the content decryption", nil)
 	}
 
+	// ---- C16.mac-input: the CBC-HMAC tag covers AAD || IV || ciphertext || 64-bit AAD bit length (RFC 7518 5.2.2.1)
+	if ct := P.Func(pkg+"/cipher", "(*cbcAEAD).computeAuthTag"); R.Anchor(ct != nil, "C16.mac-input", pkg+"/cipher.(*cbcAEAD).computeAuthTag") {
+		e := abs.NewEngine(P)
+		e.Contract = func(p *abs.Path, fr *abs.Frame, call *ssa.CallCommon, callee *ssa.Function, args []abs.Value) (abs.Value, bool) {
+			if callee == nil && call.Method.Name() == "Write" && len(args) == 2 {
+				if sl, ok := args[1].(*abs.Slice); ok {
+					p.AppendSink("mac", sl)
+					return &abs.Tuple{Vs: []abs.Value{abs.TopInt(64, true), &abs.NilV{}}}, true
+				}
+			}
+			return nil, false
+		}
+		res := e.Run(ct, func(p *abs.Path) []abs.Value {
+			for _, a := range []string{"len(aad)", "len(nonce)", "len(ciphertext)"} {
+				p.DeclareAtom(a, 32, 0, 1<<32-1)
+			}
+			return e.AutoArgs(p, ct)
+		})
+		aadBits := abs.LAtom("len(aad)").Scale(8).String()
+		spec := abs.Cat(abs.BlobSpec("aad", abs.LAtom("len(aad)")), abs.BlobSpec("nonce", abs.LAtom("len(nonce)")), abs.BlobSpec("ciphertext", abs.LAtom("len(ciphertext)")), abs.BE(aadBits, 8))
+		var problems []string
+		for _, r := range res {
+			if r.Path.Abort != "" {
+				problems = append(problems, "undecided: "+r.Path.Abort)
+				continue
+			}
+			o := r.Path.Sink("mac")
+			if o == nil {
+				problems = append(problems, "nothing is fed to the MAC")
+				continue
+			}
+			for _, m := range r.Path.Compare(o.Segs, spec) {
+				problems = append(problems, m+pathSuffix(r))
+			}
+		}
+		report(R, "C16.mac-input", "jose/cipher|(*cbcAEAD).computeAuthTag|aad+iv+ciphertext+al", P.Pos(ct.Pos()),
+			"the authentication tag is computed over AAD || IV || ciphertext || AL", "the MAC input is not AAD || IV || ciphertext || 64-bit AAD bit length: ", dedup(problems),
+			map[string]interface{}{"expected": abs.SpecString(spec)})
+	}
+
 	// ---- C16.aad
 	for _, t := range []struct{ fn, what string }{{"(JsonWebSignature).computeAuthData", "signing input"}, {"(JsonWebEncryption).computeAuthData", "additional authenticated data"}} {
 		fn := P.Func(pkg, t.fn)
@@ -474,6 +516,20 @@ func runC16(c *Ctx) {
 				}
 			}
 		})
+		// the received header has precedence: its use must not depend on the parsed header being absent
+		precedence := true
+		core.EachInstr(fn, func(in ssa.Instruction) {
+			call, ok := in.(*ssa.Call)
+			if !ok || call.Call.StaticCallee() == nil || call.Call.StaticCallee().Name() != "base64" || !strings.HasSuffix(core.Path(call.Call.Args[0]), ".original.Protected") {
+				return
+			}
+			if guardOn(call.Block(), func(a core.Atom) bool { return strings.HasSuffix(a.L, ".protected") }) {
+				precedence = false
+			}
+		})
+		R.Check(precedence, "C16.aad", "jose|"+t.fn+"|received-header-has-precedence", P.Pos(fn.Pos()),
+			"the received protected header is used whenever it exists",
+			"the received protected header bytes are only used when the parsed header is absent, i.e. the re-serialised header takes precedence: alterations of the received header that parse to the same values (e.g. member-name case) go unnoticed by verification", nil)
 		R.Check(usesOriginal, "C16.aad", "jose|"+t.fn+"|received-protected-header", P.Pos(fn.Pos()),
 			"for a parsed object the "+t.what+" is built from the received protected header bytes",
 			"for a parsed object the "+t.what+" is not built from the received (original) protected header: a re-serialised header can differ byte-wise and verification of valid objects fails, or altered bytes go unnoticed", nil)
@@ -492,7 +548,40 @@ func runC16(c *Ctx) {
 			"'.' + base64url(aad) is appended exactly when additional data is present", "the additional authenticated data is not appended under an 'aad present' guard", nil)
 	}
 
-	// ---- C16.width
+	// ---- C16.width: EC coordinates are serialised at the curve's full octet length (RFC 7518 6.2.1.2, RFC 7638)
+	nCoord := 0
+	for _, fn := range P.ModuleFuncs(pkg) {
+		core.EachInstr(fn, func(in ssa.Instruction) {
+			call, ok := in.(*ssa.Call)
+			if !ok || call.Call.StaticCallee() == nil || len(call.Call.Args) == 0 {
+				return
+			}
+			cn := call.Call.StaticCallee().Name()
+			if cn != "newBuffer" && cn != "newFixedSizeBuffer" {
+				return
+			}
+			bc, isCall := call.Call.Args[0].(*ssa.Call)
+			if !isCall || bc.Call.StaticCallee() == nil || core.FullName(bc.Call.StaticCallee()) != "(*big.Int).Bytes" {
+				return
+			}
+			recv := bc.Call.Args[0]
+			rp := core.Path(recv)
+			isCoord := strings.HasSuffix(rp, ".X") || strings.HasSuffix(rp, ".Y")
+			if par, isPar := recv.(*ssa.Parameter); isPar && (par.Name() == "x" || par.Name() == "y") && strings.Contains(strings.ToLower(fn.Name()), "ec") {
+				isCoord = true
+			}
+			if !isCoord {
+				return
+			}
+			nCoord++
+			R.Check(cn == "newFixedSizeBuffer", "C16.width", fmt.Sprintf("jose|%s|ec-coordinate-fixed-size#%d", core.FuncName(fn), nCoord), P.InstrPos(call),
+				"the EC coordinate "+rp+" is serialised at the curve's full byte length",
+				"the EC coordinate "+rp+" is serialised without left padding to the curve size: keys whose coordinate has a leading zero byte get a shorter encoding and a wrong RFC 7638 thumbprint", nil)
+		})
+	}
+	if nCoord < 4 {
+		R.Fail("C16.width", "jose|ec-coordinate-fixed-size|sites", "?", fmt.Sprintf("%d EC coordinate serialisation sites found, 4 confirmed on the pinned tree", nCoord), nil)
+	}
 	if es != nil {
 		n := 0
 		core.EachInstr(es, func(in ssa.Instruction) {
